@@ -78,3 +78,54 @@ Proof.
   intros oe Hin. rewrite Forall_forall in F. destruct (F oe Hin) as [K _]. exact K.
 Qed.
 Print Assumptions c01_events_after_resume.
+
+(* Clause 3 (path walk), for histories over one store of validated definitions ([valid_assets]: every
+   exit's destination is a node of its flow and case / default / timeout categories exist;
+   [valid_cat_exits]: every category's exit is an exit of its node - what flow validation guarantees; the
+   boolean forms are checked on every generated asset store by the correspondence run):
+   every step of every run is on a node of the run's flow; a step's exit (when it has one) is an exit of
+   that node and leads to the node of the next step; only the last step may lack an exit. *)
+From Verif Require Import proofs.EngineNoErr proofs.EnginePaths.
+
+Theorem c01_path_walk : forall (a : assets) (s : session),
+  valid_assets a -> valid_cat_exits a -> reachable_in a s ->
+  forall i r f, nth_error (s_runs s) i = Some r -> get_flow a (r_flow r) = Some f ->
+  forall k stp, nth_error (r_path r) k = Some stp ->
+  exists n, get_node f (st_node stp) = Some n /\
+    match st_exit stp with
+    | None => S k = length (r_path r)
+    | Some eid => exists e, find_exit (n_exits n) eid = Some e /\
+                  forall stp', nth_error (r_path r) (S k) = Some stp' -> e_dest e = Some (st_node stp')
+    end.
+Proof. intros a s Hv Hvc Hr i r f Hi Hf k stp Hk. exact (reachable_paths a s Hv Hvc Hr i r f Hi Hf k stp Hk). Qed.
+Print Assumptions c01_path_walk.
+
+(* Clause 2, second half: after a call (against a store of validated definitions) that returns without
+   error, every waiting run - there is exactly one when the session is waiting, none otherwise - is located
+   on a node of that store whose router has a wait ([path_location] is the model of run.PathLocation) *)
+Theorem c01_waiting_run_on_wait_node : forall (a : assets) (s : session) (r : resume) (tmo : text) (x' : st),
+  valid_cat_exits a -> reachable s -> resume_session a s r tmo = Resumed (ROk x') ->
+  forall i rn, nth_error (s_runs (session_ x')) i = Some rn -> r_status rn = RWaiting ->
+  exists pos n, path_location a (session_ x') i = Some (pos, n) /\ wait_of n <> None.
+Proof.
+  intros a s r tmo x' Hv Hr H. apply (resume_waiting_on_wait a s r tmo x' Hv (reachable_post s Hr) H).
+Qed.
+Print Assumptions c01_waiting_run_on_wait_node.
+
+Theorem c01_waiting_run_on_wait_node_start : forall (a : assets) (t : trigger) (flow : id) (x' : st),
+  valid_cat_exits a -> start a t flow = ROk x' ->
+  forall i rn, nth_error (s_runs (session_ x')) i = Some rn -> r_status rn = RWaiting ->
+  exists pos n, path_location a (session_ x') i = Some (pos, n) /\ wait_of n <> None.
+Proof. intros a t flow x' Hv H. apply (start_waiting_on_wait a t flow x' Hv H). Qed.
+Print Assumptions c01_waiting_run_on_wait_node_start.
+
+(* Clause 5, first half: every event a run has recorded names, when it names a step, a step of that run:
+   its step reference is (this run, a position inside this run's path) - for every reachable session
+   (calls against ANY asset store). *)
+From Verif Require Import proofs.EngineRefs.
+
+Theorem c01_event_steps : forall (s : session), reachable s ->
+  forall i r e, nth_error (s_runs s) i = Some r -> In e (r_events r) ->
+  ev_step e = None \/ exists pos, ev_step e = Some (i, pos) /\ (pos < length (r_path r))%nat.
+Proof. intros s Hr i r e Hi He. exact (reachable_refs s Hr i r Hi e He). Qed.
+Print Assumptions c01_event_steps.
